@@ -40,6 +40,8 @@ TraceOp ==
        [] Ev.op = "Insert"    -> DoInsert(Ev.a, Ev.args[1])
        [] Ev.op = "Union"     -> DoUnion(Ev.a, Ev.b)
        [] Ev.op = "NewIntMap" -> DoNewIntMap(MapOfFlat(Ev.args))
+       [] Ev.op = "EmptyIntSet" -> DoEmptyIntSet
+       [] Ev.op = "EmptyIntMap" -> DoEmptyIntMap
        [] Ev.op = "Inc"       -> DoInc(Ev.a, Ev.args[1])
        [] Ev.op = "Filter"    -> DoFilter(Ev.a, Ev.b)
        [] OTHER -> FALSE
